@@ -64,18 +64,20 @@ func main() {
 		os.Exit(replayMain(os.Args[2:]))
 	case "laneb":
 		os.Exit(laneBMain(os.Args[2:]))
+	case "rlane":
+		os.Exit(rlaneMain(os.Args[2:]))
 	}
 	fmt.Fprintln(os.Stderr, "unknown subcommand", os.Args[1])
 	os.Exit(2)
 }
 
 type commonFlags struct {
-	prop, tier, inv, evidence, replayDir, known, caseLog, scratch, laneB string
-	seed                                                                uint64
-	workers                                                             int
-	budget                                                              time.Duration
-	cases                                                               int64
-	w, n                                                                int
+	prop, tier, inv, evidence, replayDir, known, caseLog, scratch, laneB, laneR string
+	seed                                                                        uint64
+	workers                                                                     int
+	budget                                                                      time.Duration
+	cases                                                                       int64
+	w, n                                                                        int
 }
 
 func parseFlags(args []string) *commonFlags {
@@ -92,6 +94,7 @@ func parseFlags(args []string) *commonFlags {
 	fs.StringVar(&f.caseLog, "caselog", "", "directory for per-case hash logs (determinism self-test)")
 	fs.StringVar(&f.scratch, "scratch", os.TempDir(), "scratch directory for worker output")
 	fs.StringVar(&f.laneB, "laneb", "", "path of the lane-B binary (uninstrumented, -race); C19 only")
+	fs.StringVar(&f.laneR, "laner", "", "path of the lane-R binary (instrumented, -race); C19 only")
 	fs.DurationVar(&f.budget, "budget", 0, "override wall-clock budget")
 	fs.Int64Var(&f.cases, "cases", -1, "override case count")
 	fs.IntVar(&f.w, "w", 0, "worker index")
@@ -331,6 +334,19 @@ func driver(args []string) int {
 	laneB := map[string]any(nil)
 	laneBUnreproduced := false
 	exit := 0
+	laneR := map[string]any(nil)
+	if f.prop == "C19" && f.laneR != "" && !invRealGo(f.inv) && tot.Extra["unowned_goroutines_seen"] == 0 {
+		var rViol []*Violation
+		var code int
+		laneR, rViol, code = runLaneR(f, scratch)
+		if code == 2 {
+			return 2
+		}
+		if code == 3 {
+			laneBUnreproduced = true
+		}
+		tot.Violations = append(tot.Violations, rViol...)
+	}
 	if f.prop == "C19" && f.laneB != "" {
 		var lbViol []*Violation
 		var code int
@@ -376,7 +392,7 @@ func driver(args []string) int {
 		}
 		// fresh-process confirmation
 		var confirmed bool
-		if strings.HasPrefix(v.Clause, "laneB-") {
+		if strings.HasPrefix(v.Clause, "laneB-") || strings.HasPrefix(v.Clause, "laneR-") {
 			confirmed = true // lane B confirms by re-running in a fresh process itself
 		} else {
 			cmd := exec.Command(os.Args[0], "replay", "-file", path, "-inv", f.inv, "-quiet")
@@ -446,13 +462,18 @@ func driver(args []string) int {
 	}
 	wall := time.Since(t0).Seconds()
 	if f.evidence != "" {
-		if err := writeEvidence(f, tot, wall, reported, knownMatched, laneB); err != nil {
+		if err := writeEvidence(f, tot, wall, reported, knownMatched, laneB, laneR); err != nil {
 			fmt.Println("ERROR: evidence:", err)
 			return 2
 		}
 	}
 	fmt.Printf("%s %s: cases=%d executions=%d distinct_nontrivial=%d violations=%d known=%d wall=%.1fs\n", f.prop, f.tier, tot.Cases, tot.Evaluations, tot.Nontrivial, len(reported), len(knownMatched), wall)
 	return exit
+}
+
+func invRealGo(path string) bool {
+	inv := loadInventory(path)
+	return inv != nil && len(inv.Unsim) > 0
 }
 
 func gomaxprocsFor(workers int) string {
